@@ -94,6 +94,7 @@ func vfC11Send(env *vfEnvT, h vfC11Handler, r vfC11Req) vfC11Outcome {
 	}
 	var before http.Header
 	if r.any.http != nil {
+		vfC11StampDelivery(ctx)
 		before = vfC11Before(ctx)
 	}
 	var res string
